@@ -567,6 +567,60 @@ func (w *world) exec(i int, st Step) {
 		time.Sleep(time.Duration(st.D) * time.Millisecond)
 	case "waitstatus":
 		w.waitStatus()
+	case "restartnow":
+		// Wait for the end of the stopping server in this very step and start it
+		// again at once, so that whatever the old connection left running
+		// (callback waiters, handlers) overlaps the new one.  Only generated after
+		// a stop or peerclose step.
+		if !w.hasStatus(w.conn) {
+			w.mu.Lock()
+			already := w.statusSet[w.conn]
+			w.statusSet[w.conn] = true
+			conn := w.conn
+			w.mu.Unlock()
+			if !already {
+				go func() {
+					st := w.srv.WaitStatus()
+					flag := ""
+					if st.Stopped {
+						flag = "stopped"
+					}
+					if st.Closed {
+						flag += "closed"
+					}
+					w.log(Event{Kind: "status", Conn: conn, Flag: flag, Err: errStr(st.Err)})
+				}()
+			}
+			// WaitStatus waits for every handler (also for the retained
+			// notifications that only start now): let parked ones go as they
+			// appear, and let the fake clock advance in the smallest steps.
+			for i := 0; i < 5000 && !w.hasStatus(conn); i++ {
+				synctest.Wait()
+				if w.hasStatus(conn) {
+					break
+				}
+				w.mu.Lock()
+				var ks []int
+				for k, on := range w.parked {
+					if on {
+						ks = append(ks, k)
+					}
+				}
+				w.mu.Unlock()
+				sort.Ints(ks)
+				for _, k := range ks {
+					w.log(Event{Kind: "release", K: k, Ret: "ok"})
+					select {
+					case w.gate(k) <- "ok":
+					default:
+					}
+				}
+				if len(ks) == 0 {
+					time.Sleep(time.Microsecond)
+				}
+			}
+		}
+		fallthrough
 	case "restart":
 		if w.hasStatus(w.conn) {
 			w.log(Event{Kind: "restart"})
